@@ -661,6 +661,293 @@ def jac_apply(repo, out):
             out.ok(fn, st, f'{len(uf)} fwd update(s) matched by adjoint rev updates')
 
 
+# --------------------------------------------------------------------------- rev-mode solution cache
+RHSC = 'openmdao/solvers/linear/linear_rhs_checker.py'
+
+
+class _Num:
+    """Evaluate an arithmetic expression over {name: float} (+ - * / ** abs sqrt)."""
+
+    def __init__(self, env):
+        self.env = env
+
+    def ev(self, e):
+        if isinstance(e, ast.Constant) and isinstance(e.value, (int, float)) and not isinstance(e.value, bool):
+            return float(e.value)
+        if isinstance(e, ast.Name) and e.id in self.env:
+            return self.env[e.id]
+        if isinstance(e, ast.UnaryOp) and isinstance(e.op, (ast.USub, ast.UAdd)):
+            v = self.ev(e.operand)
+            return -v if isinstance(e.op, ast.USub) else v
+        if isinstance(e, ast.BinOp) and type(e.op) in (ast.Add, ast.Sub, ast.Mult, ast.Div, ast.Pow):
+            a, b = self.ev(e.left), self.ev(e.right)
+            return {ast.Add: a + b, ast.Sub: a - b, ast.Mult: a * b,
+                    ast.Div: a / b if b else float('nan'), ast.Pow: a ** b}[type(e.op)]
+        if isinstance(e, ast.Call) and astx.call_name(e) in ('abs', 'np.abs', 'numpy.abs') and len(e.args) == 1:
+            return abs(self.ev(e.args[0]))
+        if isinstance(e, ast.Call) and astx.call_name(e) in ('np.sqrt', 'sqrt', 'math.sqrt') and len(e.args) == 1:
+            return self.ev(e.args[0]) ** 0.5
+        if isinstance(e, ast.Call) and astx.call_name(e) in ('np.sign', 'np.copysign') :
+            a = [self.ev(x) for x in e.args]
+            if len(a) == 1:
+                return (a[0] > 0) - (a[0] < 0)
+            return abs(a[0]) if a[1] >= 0 else -abs(a[0])
+        raise AnalysisError(f'outside the evaluated fragment: {astx.src(e)}')
+
+
+def _signed(e):
+    """(base expr, sign) looking through unary minus."""
+    sign = 1
+    while isinstance(e, ast.UnaryOp) and isinstance(e.op, ast.USub):
+        e, sign = e.operand, -sign
+    return e, sign
+
+
+@rule('C02.rhscache', floor=4)
+def rhscache(repo, out):
+    """The rev-mode solution cache is linear: a hit for c*rhs returns c*solution, sign included."""
+    add = repo.func(RHSC, 'LinearRHSChecker.add_solution')
+    get = repo.func(RHSC, 'LinearRHSChecker.get_solution')
+    # writer: (rhs, solution, norm of rhs)
+    apps = [c for c in astx.calls(add.node) if astx.callee_attr(c) == 'append' and len(c.args) == 1
+            and isinstance(c.args[0], ast.Tuple)]
+    if len(apps) != 1 or len(apps[0].args[0].elts) != 3:
+        raise AnalysisError('add_solution: cache tuple not recognised')
+    elts = apps[0].args[0].elts
+    params = [a.arg for a in add.node.args.args]
+    norm_defs = [st for st in astx.walk_stmts(add.node.body) if isinstance(st, ast.Assign)
+                 and astx.path(st.targets[0]) == astx.path(elts[2])]
+    if astx.path(elts[0]) != params[1] or astx.path(elts[1]) != params[2] or not norm_defs or \
+            not any(astx.mentions(d.value, params[1]) for d in norm_defs) or \
+            any(astx.mentions(d.value, params[2]) for d in norm_defs):
+        out.bad(add, apps[0], 'cache entries must be (rhs, solution, norm of rhs) in this order', key='rhscache-writer')
+        return
+    out.ok(add, apps[0], 'entry = (rhs, solution, |rhs|)')
+    # reader: unpack in the same order
+    unp = [st for st in astx.walk_stmts(get.node.body) if isinstance(st, ast.Assign)
+           and isinstance(st.targets[0], ast.Tuple) and len(st.targets[0].elts) == 3
+           and astx.mentions(st.value, '_caches')]
+    if len(unp) != 1:
+        raise AnalysisError('get_solution: cache entry unpacking not recognised')
+    R, S, N = [e.id for e in unp[0].targets[0].elts]
+    rhs_p = [a.arg for a in get.node.args.args][1]
+    out.ok(get, unp[0], f'entry read as ({R}, {S}, {N})')
+
+    def first_def(name):
+        ds = [st for st in astx.walk_stmts(get.node.body) if isinstance(st, ast.Assign) and len(st.targets) == 1
+              and astx.path(st.targets[0]) == name]
+        return ds[0].value if ds else None
+    hits = [st for st in astx.walk_stmts(get.node.body) if isinstance(st, ast.Assign) and len(st.targets) == 1
+            and astx.path(st.targets[0]) == 'sol_array' and not
+            (isinstance(st.value, ast.Constant) and st.value.value is None)]
+    n_ok = 0
+    for st in hits:
+        guard = next((a for a in astx.ancestors(st) if isinstance(a, ast.If) and isinstance(a.test, ast.Name)), None)
+        val = st.value
+        base, sgn = _signed(val)
+        if any(isinstance(n, ast.Name) and n.id == R for n in astx.walk(val)) and \
+                not any(isinstance(n, ast.Name) and n.id == S for n in astx.walk(val)):
+            out.bad(get, st, f'the cache hit returns {astx.src(val)}, built from the first element of the entry '
+                    '(the cached right-hand side, see add_solution) instead of the second (the cached solution)',
+                    key='rhscache-reader')
+            continue
+        if isinstance(base, ast.Name) and base.id == S:
+            # exact / negated hit: the comparison that guards it must carry the same sign on the cached rhs
+            gdef = first_def(guard.test.id) if guard is not None else None
+            if not (isinstance(gdef, ast.Call) and astx.callee_attr(gdef) == 'allclose' and len(gdef.args) >= 2):
+                out.unsure(get, st, 'guard of the cache hit is not an allclose(rhs, ±cached rhs) test')
+                continue
+            a0, a1 = gdef.args[0], gdef.args[1]
+            b0, s0 = _signed(a0)
+            b1, s1 = _signed(a1)
+            if {astx.path(b0), astx.path(b1)} != {rhs_p, R}:
+                out.bad(get, st, f'hit is guarded by a comparison of {astx.src(a0)} with {astx.src(a1)}, not of the '
+                        'new rhs with the cached rhs', key='rhscache-guard')
+                continue
+            if s0 * s1 != sgn:
+                out.bad(get, st, f'rhs matches {"-" if s0 * s1 < 0 else "+"}cached rhs but {"-" if sgn < 0 else "+"}'
+                        'cached solution is returned', key='rhscache-sign')
+                continue
+            n_ok += 1
+            out.ok(get, st, f'rhs == {"-" if sgn < 0 else ""}cached  ->  {"-" if sgn < 0 else ""}cached solution')
+            continue
+        # parallel hit: cached solution times a scalar
+        if isinstance(val, ast.BinOp) and isinstance(val.op, ast.Mult):
+            fac = val.right if astx.path(val.left) == S else val.left if astx.path(val.right) == S else None
+            if fac is None:
+                out.unsure(get, st, 'scaled hit does not multiply the cached solution')
+                continue
+            fexpr = first_def(fac.id) if isinstance(fac, ast.Name) else fac
+            roles = {}
+            for nm_node in {n.id for n in astx.walk(fexpr) if isinstance(n, ast.Name)}:
+                dl = [x.value for x in astx.walk_stmts(get.node.body) if isinstance(x, ast.Assign)
+                      and len(x.targets) == 1 and astx.path(x.targets[0]) == nm_node
+                      and not (isinstance(x.value, ast.Constant) and x.value.value is None)]
+                if nm_node == N:
+                    roles[nm_node] = 'cn'
+                elif dl and all(isinstance(d, ast.Call) and astx.callee_attr(d) in ('dot', 'vdot', 'allreduce')
+                                for d in dl) and any(isinstance(d, ast.Call) and astx.callee_attr(d) in ('dot', 'vdot')
+                                                     and {astx.path(a) for a in d.args} == {rhs_p, R} for d in dl):
+                    roles[nm_node] = 'dot'
+                elif dl and all(astx.mentions(d, rhs_p) and not astx.mentions(d, R) and
+                                any(astx.callee_attr(c) in ('norm', 'sqrt') for c in astx.calls(d)) for d in dl):
+                    roles[nm_node] = 'rn'
+                elif nm_node in ('np', 'numpy', 'abs'):
+                    continue
+                else:
+                    roles[nm_node] = None
+            if None in roles.values():
+                out.unsure(get, st, f'cannot assign roles to the names in the scale factor {astx.src(fexpr)}')
+                continue
+            bad = None
+            for c in (2.0, -3.0, 0.5, -1.5):
+                nrm = 2.0
+                vals = dict(dot=c * nrm * nrm, rn=abs(c) * nrm, cn=nrm)
+                try:
+                    got = _Num({k: vals[r] for k, r in roles.items()}).ev(fexpr)
+                except AnalysisError as e:
+                    out.unsure(get, st, str(e))
+                    bad = 'unsure'
+                    break
+                if abs(got - c) > 1e-12:
+                    bad = (c, got)
+                    break
+            if bad is None:
+                n_ok += 1
+                out.ok(get, st, f'rhs = c*cached -> ({astx.src(fexpr)}) == c for c in (2, -3, 0.5, -1.5)')
+            elif bad != 'unsure':
+                out.bad(get, st, f'for rhs = {bad[0]} * cached rhs the cached solution is scaled by {bad[1]:g} '
+                        f'({astx.src(fexpr)}): the replayed adjoint solution is not the solution of the new '
+                        'right-hand side', key='rhscache-scale')
+            continue
+        out.unsure(get, st, f'unrecognised cache hit value {astx.src(val)}')
+    if n_ok < 3 and not any(True for _ in []):
+        pass
+
+
+# --------------------------------------------------------------------------- explicit solve_linear mirror
+@rule('C02.explicit_solve', floor=1)
+def explicit_solve(repo, out):
+    """ExplicitComponent._solve_linear: the rev branch is the fwd branch with the two vectors exchanged."""
+    fn = repo.func('openmdao/core/explicitcomponent.py', 'ExplicitComponent._solve_linear')
+    mi = mode_ifs(fn)
+    if len(mi) != 1:
+        raise AnalysisError('ExplicitComponent._solve_linear: mode test not found')
+    st, fwd, rev = mi[0]
+    swap = {'d_outputs': 'd_residuals', 'd_residuals': 'd_outputs'}
+
+    def skel(stmts, ren):
+        res = []
+        for s_ in stmts:
+            if isinstance(s_, ast.If):
+                t = s_.test
+                atoms = t.values if isinstance(t, ast.BoolOp) else [t]
+                res.append(('if', type(t.op).__name__ if isinstance(t, ast.BoolOp) else '',
+                            tuple(sorted(astx.dump(a) for a in atoms)), tuple(skel(s_.body, ren)),
+                            tuple(skel(s_.orelse, ren))))
+            elif isinstance(s_, ast.With):
+                listed = []
+                for it in s_.items:
+                    c = it.context_expr
+                    if isinstance(c, ast.Call) and astx.callee_attr(c) == '_unscaled_context':
+                        for kw, pos in (('outputs', 0), ('residuals', 1)):
+                            a = astx.arg(c, pos, kw)
+                            listed.append((kw, tuple(sorted(astx.path(e) for e in a.elts)) if a is not None and
+                                           isinstance(a, (ast.List, ast.Tuple)) else None))
+                    else:
+                        listed.append(('other', astx.dump(c)))
+                res.append(('with', tuple(sorted(listed)), tuple(skel(s_.body, ren))))
+            elif isinstance(s_, (ast.Pass,)):
+                continue
+            else:
+                c = pathx._cp(s_)
+                if ren:
+                    for n in ast.walk(c):
+                        if isinstance(n, ast.Name) and n.id in swap:
+                            n.id = swap[n.id]
+                res.append(('stmt', astx.dump(c)))
+        return res
+    a, b = skel(fwd, False), skel(rev, True)
+    if a == b:
+        out.ok(fn, st, 'rev branch = fwd branch with d_outputs and d_residuals exchanged (same guards, same contexts)')
+    else:
+        diff = next((i for i, (x, y) in enumerate(zip(a, b)) if x != y), min(len(a), len(b)))
+        where = (rev[diff] if diff < len(rev) else st)
+        out.bad(fn, where, 'the rev branch is not the fwd branch with d_outputs and d_residuals exchanged: the '
+                'guards, the unscaled contexts or the operations differ, so the two are not adjoint for every '
+                'scaling', key='explicit-solve-mirror')
+
+
+# --------------------------------------------------------------------------- cached vjp functions
+VJP_FILES = ['openmdao/components/jax_explicit_comp.py', 'openmdao/components/jax_implicit_comp.py']
+
+
+@rule('C02.vjpcache', floor=2)
+def vjpcache(repo, out):
+    """A cached reverse-mode (vjp) function is keyed on every vector its linearisation point is read from."""
+    n = 0
+    for rel in VJP_FILES:
+        if not repo.exists(rel):
+            continue
+        m = repo.module(rel)
+        for f in m.funcs.values():
+            for st in astx.walk_stmts(f.node.body):
+                if not (isinstance(st, ast.If) and isinstance(st.test, ast.Compare) and len(st.test.ops) == 1 and
+                        isinstance(st.test.ops[0], ast.NotEq)):
+                    continue
+                l, r = st.test.left, st.test.comparators[0]
+                key, slot = (l, r) if isinstance(l, ast.Name) else (r, l)
+                sp = astx.path(slot) or ''
+                if not (isinstance(key, ast.Name) and sp.startswith('self.') and sp.endswith('_hash')):
+                    continue
+                if not any((astx.path(t) or '').endswith('_vjp_fun') for x in astx.walk_stmts(st.body)
+                           if isinstance(x, ast.Assign) for t in astx.assigned_targets(x)):
+                    continue
+                n += 1
+                kdefs = [x for x in astx.walk_stmts(f.node.body) if isinstance(x, ast.Assign) and
+                         astx.path(x.targets[0]) == key.id]
+                stores = [x for x in astx.walk_stmts(st.body) if isinstance(x, ast.Assign) and
+                          astx.path(x.targets[0]) == sp and astx.path(x.value) == key.id]
+                if len(kdefs) != 1:
+                    out.unsure(f, st, 'cache key is not defined exactly once')
+                    continue
+                if not stores:
+                    out.bad(f, st, f'{sp} is not updated with the key the cached function was built for',
+                            key='vjpcache-store')
+                    continue
+                kexpr = kdefs[0].value
+                params = {a.arg for a in f.node.args.args}
+                used = set()
+                for c in astx.calls(ast.Module(body=st.body, type_ignores=[])):
+                    if astx.callee_attr(c) == '_get_compute_primal_invals':
+                        for a in c.args:
+                            p_ = astx.path(a)
+                            if p_:
+                                used.add(p_)
+                missing = []
+                for u in sorted(used):
+                    last = u.split('.')[-1].lstrip('_')
+                    if u in params and not last.startswith('discrete'):
+                        okk = any(astx.callee_attr(c) == 'get_hash' and astx.path(astx.receiver(c)) == u
+                                  for c in astx.calls(kexpr))
+                    else:
+                        okk = any((astx.path(n_) or '').split('.')[-1].lstrip('_') == last
+                                  for n_ in astx.walk(kexpr) if isinstance(n_, (ast.Name, ast.Attribute)))
+                    if not okk:
+                        missing.append(u)
+                if not used:
+                    out.unsure(f, st, 'linearisation point of the cached function not recognised')
+                elif missing:
+                    out.bad(f, kdefs[0], f'the cached vjp function is built from {sorted(used)} but the key '
+                            f'{astx.src(kexpr)} does not cover {missing}: after only {missing} change the stale '
+                            'function is reused and the rev product is no longer the adjoint of the fwd product',
+                            key='vjpcache-key')
+                else:
+                    out.ok(f, kdefs[0], f'key covers {sorted(used)}')
+    if n < 2:
+        raise AnalysisError('cached vjp sites not found')
+
+
 # --------------------------------------------------------------------------- composition order
 def _call_order(stmts, names):
     """Sequence of callee names (restricted to names) in source order inside stmts."""
@@ -979,6 +1266,28 @@ selftest(
     Mutant('maskcache-mode-only', _JAC, "mask = self._mask_caches[(d_inputs._names, mode)]", "mask = self._mask_caches[mode]", 'C02.maskcache',
            also=[(_JAC, "self._mask_caches[(d_inputs._names, mode)] = mask", "self._mask_caches[mode] = mask")]),
     Mutant('maskcache-key-mismatch', _JAC, "self._mask_caches[(d_inputs._names, mode)] = mask", "self._mask_caches[(mode, d_inputs._names)] = mask", 'C02.maskcache'),
+    Mutant('rhscache-norm-ratio', RHSC, "scaler = dot_product / rhs_cache_norm**2", "scaler = rhs_norm / rhs_cache_norm", 'C02.rhscache'),
+    Mutant('rhscache-neg-returns-pos', RHSC, "                sol_array = -sol_cache", "                sol_array = sol_cache", 'C02.rhscache'),
+    Mutant('rhscache-unpack-swapped', RHSC, "rhs_cache, sol_cache, rhs_cache_norm = self._caches[i]", "sol_cache, rhs_cache, rhs_cache_norm = self._caches[i]", 'C02.rhscache'),
+    Mutant('rhscache-writer-swapped', RHSC, "self._caches.append((rhs, solution, rhs_norm))", "self._caches.append((solution, rhs, rhs_norm))", 'C02.rhscache'),
+    Twin('twin-rhscache-scaler-form', RHSC, "scaler = dot_product / rhs_cache_norm**2", "scaler = dot_product / (rhs_cache_norm * rhs_cache_norm)"),
+    Mutant('explicit-solve-rev-guard-narrowed', 'openmdao/core/explicitcomponent.py',
+           "            if self._has_resid_scaling or self._has_output_scaling:\n                with self._unscaled_context(outputs=[d_outputs], residuals=[d_residuals]):\n                    d_residuals.set_vec(d_outputs)",
+           "            if self._has_resid_scaling:\n                with self._unscaled_context(outputs=[d_outputs], residuals=[d_residuals]):\n                    d_residuals.set_vec(d_outputs)", 'C02.explicit_solve'),
+    Mutant('explicit-solve-rev-sign', 'openmdao/core/explicitcomponent.py', "            d_residuals *= -1.0", "            d_residuals *= 1.0", 'C02.explicit_solve'),
+    Twin('twin-explicit-solve-flags-swapped', 'openmdao/core/explicitcomponent.py',
+         "            if self._has_resid_scaling or self._has_output_scaling:\n                with self._unscaled_context(outputs=[d_outputs], residuals=[d_residuals]):\n                    d_residuals.set_vec(d_outputs)",
+         "            if self._has_output_scaling or self._has_resid_scaling:\n                with self._unscaled_context(residuals=[d_residuals], outputs=[d_outputs]):\n                    d_residuals.set_vec(d_outputs)"),
+    Mutant('vjpcache-implicit-inputs-only', 'openmdao/components/jax_implicit_comp.py',
+           "inhash = (inputs.get_hash(), outputs.get_hash()) + tuple(self._discrete_inputs.values())",
+           "inhash = (inputs.get_hash(),) + tuple(self._discrete_inputs.values())", 'C02.vjpcache'),
+    Mutant('vjpcache-explicit-no-discrete', 'openmdao/components/jax_explicit_comp.py',
+           "            inhash = ((inputs.get_hash(),) + tuple(self._discrete_inputs.values()) +\n                      self.get_self_statics())",
+           "            inhash = (inputs.get_hash(),) + self.get_self_statics()", 'C02.vjpcache'),
+    Mutant('vjpcache-hash-not-stored', 'openmdao/components/jax_implicit_comp.py', "                self._vjp_hash = inhash\n", "                pass\n", 'C02.vjpcache'),
+    Twin('twin-vjpcache-key-order', 'openmdao/components/jax_implicit_comp.py',
+         "inhash = (inputs.get_hash(), outputs.get_hash()) + tuple(self._discrete_inputs.values())",
+         "inhash = tuple(self._discrete_inputs.values()) + (outputs.get_hash(), inputs.get_hash())"),
     Twin('twin-transfer-early-return', _DT,
          "        if mode == 'fwd':\n            # this works whether the vecs have multi columns or not due to broadcasting\n            in_vec.set_val(out_vec.asarray()[self._out_inds.flat], self._in_inds)\n\n        else:  # rev\n            out_vec.iadd(np.bincount(self._out_inds, in_vec._get_data()[self._in_inds],\n                                     minlength=out_vec._data.size))",
          "        if mode != 'fwd':\n            w = in_vec._get_data()[self._in_inds]\n            g = np.bincount(self._out_inds, weights=w, minlength=out_vec._data.size)\n            out_vec.iadd(g)\n            return\n        vals = out_vec.asarray()[self._out_inds.flat]\n        in_vec.set_val(vals, self._in_inds)"),
